@@ -259,3 +259,6 @@ impl TransportProbe {
         Ok(frames)
     }
 }
+
+#[path = "outstation_probe.rs"]
+pub mod outstation_probe;
